@@ -230,7 +230,11 @@ class AccessMixin(object):
   # ------------------------------------------------------------------ subscripts
   def subscript(self, st, c, k, node=None):
     out = []
+    from pyvc.values import VSnap
     for s, cv in self.resolve(st, c):
+      if (isinstance(cv, VRef) and cv.cls == 'dict') or (isinstance(cv, VSnap) and cv.how == 'dict'):
+        out.extend(self._subscript(s, cv, k, node))     # dict keys are used as they are (no case split)
+        continue
       for s2, kv in self.resolve(s, k):
         out.extend(self._subscript(s2, cv, kv, node))
     return out
